@@ -56,6 +56,10 @@ fn main() {
             asys::uplinks::replay(&ctx, r);
             ctx.finish("model_checking", "replay");
         }
+        if r["leg"].as_str() == Some("wt-lane-failure") {
+            asys::wtlinks::replay(&ctx, r);
+            ctx.finish("model_checking", "replay");
+        }
         if r["leg"].as_str() == Some("links-bfs") {
             let ops: Vec<asys::linksbfs::Op> = serde_json::from_value(r["detail"]["ops"].clone()).unwrap();
             if let Err(e) = asys::linksbfs::build(&ops) {
@@ -71,6 +75,8 @@ fn main() {
     // every sequence of link / unlink / remote removal / lane failure (a failing lane cannot be
     // produced with the real agent, whose lanes do not write malformed frames)
     asys::linksbfs::links_leg(&ctx, "links-bfs", Some(&["prune_iff_no_links", "remove_lane_reports_its_links", "remove_all_reports_every_link", "is_linked_true", "linked_to_true", "linked_from_true"]));
+    // --- leg 01 (E1): the real write task alone, a lane's response stream turns into garbage
+    asys::wtlinks::run_leg(&ctx, "wt-lane-failure");
     // --- leg 0 (E2): the real Uplinks scheduler alone, every operation history to a depth bound
     asys::uplinks::run(&ctx, "uplinks-bfs", if quick { 7 } else { 8 }, |_| true);
     let p = pool();
